@@ -53,6 +53,13 @@ class Module:
                             if isinstance(tt, ast.Name):
                                 self.constants[tt.id] = vv
 
+    def with_tree(self, tree):
+        """the same module with a transformed syntax tree (the original object is left untouched)"""
+        import copy
+        m = copy.copy(self)
+        m.tree = tree
+        return m
+
     def _toplevel(self, body):
         for st in body:
             yield st
@@ -185,6 +192,7 @@ class Repo:
                 self.modules[rel] = Module(rel, self.overlay[rel]) if rel in self.overlay else m
             for rel, t in base.templates.items():
                 self.templates[rel] = self.overlay.get(rel, t)
+            self._normalise()
             self.bymod = {m.modname: m for m in self.modules.values()}
             self.funcs, self.classes = {}, {}
             for rel, m in self.modules.items():
@@ -206,10 +214,18 @@ class Repo:
                     self.modules[rel] = Module(rel, self._read(rel, p))
                 elif '/templates/' in rel and f.endswith(('.xml', '.html', '.kml')):
                     self.templates[rel] = self._read(rel, p)
+        self._normalise()
         self.bymod = {m.modname: m for m in self.modules.values()}
         self.funcs, self.classes = {}, {}
         for rel, m in self.modules.items():
             self._index(m, m.tree, rel + ':', None)
+
+    def _normalise(self):
+        """inline the functions the rules do not know into their callers (sa/inline.py)"""
+        from .inline import normalise
+        changed, self.inline_report = normalise({rel: m.tree for rel, m in self.modules.items()}, sources={rel: m.src for rel, m in self.modules.items()})
+        for rel, t in changed.items():
+            self.modules[rel] = self.modules[rel].with_tree(t)
 
     def _read(self, rel, p):
         if rel in self.overlay:
